@@ -824,7 +824,7 @@ fn test_exp() {
 ///
 /// These functions evaluates the hyperbolic sine function of a value in ***a***.
 pub fn sinh(x: P32E2) -> P32E2 {
-    if x.is_nar() {
+    if x.is_nar() || x.abs() > P32E2::new(0x_6980_0000) {
         return P32E2::NAR;
     }
     let e = kernel::exp_m1(x.abs());
@@ -884,6 +884,9 @@ fn test_cosh() {
 pub fn tanh(x: P32E2) -> P32E2 {
     if x.is_nar() {
         return P32E2::NAR;
+    }
+    if x.abs() > P32E2::new(0x_60ad_c222) {
+        return mulsign(ONE, x);
     }
     let mut y = x.abs();
     let d = kernel::exp_m1(TWO * y);
